@@ -119,6 +119,8 @@ class RepsConstructorContract:
             if isinstance(shp, (list, tuple)) and isinstance(shp[0], int):
                 return [None] * shp[0]
             raise Unsupported("np.empty(%r)" % (shp,))
+        if name == "np.result_type":
+            return Opaque("np.result_type", *args)  # a dtype: array contents are not tracked, only shapes
         if name == "np.ones":
             if isinstance(args[0], int):
                 return Opaque("ones", args[0])
@@ -144,6 +146,11 @@ class RepsConstructorContract:
             pc.append(successor_concrete(new, d, [base] * len(d)))  # the callee's proved postcondition (assumed here)
             return new
         return NotImplemented
+
+    def attr_of(self, eng, o, attr):
+        if attr == "dtype" and isinstance(o, Shaped):
+            return Opaque("dtype", o.name)
+        raise Unsupported("attribute %s" % attr)
 
     def name(self, eng, ident):
         if ident in ("int", "float"):
